@@ -123,7 +123,7 @@ class Prop:
             "copying form raise).  quick: (a) every ordered forest <= 3 nodes x all 6^n verdict assignments x all starts, 4-5 nodes "
             "sampled per (shape, start); (b) 2 nodes exhaustive, 3-4 nodes sampled; (c) 2 nodes exhaustive, 3 sampled; 300 random trees "
             "of 6-14 nodes with clones.  thorough: (a) <= 4 nodes exhaustive, 5 sampled; (b) <= 3 exhaustive, 4 sampled; (c) <= 3 "
-            "exhaustive, 4 sampled; 2000 random.  distinct = distinct (shape, labels, data_ids, verdicts, start); non-trivial = a "
+            "exhaustive, 4 sampled; 1200 random.  distinct = distinct (shape, labels, data_ids, verdicts, start); non-trivial = a "
             "non-empty proper subset of the scanned nodes is kept")
     exhaustive_note = ("all forest shapes <= N nodes x all 6^n verdict assignments x all starts (N=3 quick, 4 thorough); with every sibling pair as "
                        "twins and every non-sibling pair as clones: N=2 quick, 3 thorough")
@@ -270,7 +270,7 @@ class Prop:
             yield from self._exhaustive(4, rng, sample=30)
             yield from self._exhaustive(5, rng, sample=4)
         else:
-            yield from self._exhaustive(5, rng, sample=100)
+            yield from self._exhaustive(5, rng, sample=60)
         # equal-comparing siblings under distinct data_ids, clones in different parents: twins answered differently
         yield from self._twins(2, rng)
         if tier == "quick":
@@ -280,7 +280,7 @@ class Prop:
             yield from self._clones(3, rng, sample=20)
         else:
             yield from self._twins(3, rng)
-            yield from self._twins(4, rng, sample=30)
+            yield from self._twins(4, rng, sample=20)
             yield from self._clones(2, rng)
             yield from self._clones(3, rng)
             yield from self._clones(4, rng, sample=20)
@@ -293,10 +293,10 @@ class Prop:
         else:
             yield from self._typed(2, rng)
             yield from self._typed(3, rng)
-            yield from self._typed(4, rng, sample=40)
+            yield from self._typed(4, rng, sample=25)
             yield from self._typed_stop(4, rng, reps=4)
             yield from self._typed_stop(5, rng, reps=1)
-        nrand = 300 if tier == "quick" else 2000
+        nrand = 300 if tier == "quick" else 1200
         weights = [3, 4, 1, 1, 1, 0.4]
         for _ in range(nrand):
             n = rng.randint(6, 14)
